@@ -67,6 +67,7 @@ var registry = map[string]propCfg{
 	"C03": chainProp("one case = a seeded block stream of IBTPs against appchains bound to a drawn master rule (Happy, a WASM rule accepting iff proof[0]&1, FabricSim with garbage proofs) and, optionally, IBTPs relayed from another BitXHub with n in {1,3,4,7} registered validators signed by 0..n+1 distinct/duplicate/unregistered keys; proofs valid, refused by the rule (plain false or error), absent or hash-mismatched; the same IBTPs also submitted as plain invocations of HandleIBTPData/HandleIBTP by outsiders, chain admins and governance admins; the harness judges validity itself (hash matches and rule predicate by construction, or distinct registered signers > (n-1)/3): invalid => receipt FAILED and (twin replica) no state change, a plain invocation never processes an IBTP, and verification never kills the node (worker death is attributed to the run)", 800, 80000),
 	"C17": chainProp("one case = a seeded block stream of direct invocations of contract methods, the dispatch surface being enumerated by reflection over the contracts the executor registered (every exported method incl. methods promoted from the embedded stub; counted in the evidence), called by an outsider, the chain's admin, another chain's admin, a governance admin and the node account, with arguments typed by the method signature and drawn from the run's live identifiers and garbage, audit on/off, interleaved with IBTP traffic; oracles: methods the statement reserves for contract-to-contract use must fail, chain-admin/governance-admin operations must fail for an outsider, and (twin replica, for failed and successful calls alike) refused calls change nothing, read methods write nothing, and no outsider call changes existing interchain counters or records", 800, 80000),
 	"C04": chainProp("one case = a seeded block stream of one-to-one IBTP traffic with receipts success/failure/rollback, timeouts 0..5 blocks, receipts before, in and after the expiry block and after final states, empty blocks; a reference status machine written from the statement is folded over the accepted events and block heights and compared with GetStatus after every block", 800, 80000),
+	"C05": chainProp("one case = a seeded block stream with one-to-many groups of 2-4 children declared over one or two destination chains (3 appchains), children begun and reported in any order, with success/failure/rollback receipts, group timeouts 0/2/3/5, duplicate and late child messages, several groups interleaved and one-to-one traffic in between; a reference group model from the statement is compared after every block with the stored group record (global and child statuses) and with the block's multi-transaction and timeout notification sets", 800, 80000),
 	"C06": chainProp("one case = a seeded block stream of one-to-one IBTP traffic with timeouts T in {0,1,2,3,5,2^62,-1} and receipts around H+T; after every block the per-chain timeout notification sets and the statuses are compared with a reference expiry model", 800, 80000),
 	"C07": chainProp("one case = a seeded mixed block stream; for every block one FAILED transaction (rotating) is replaced on a twin replica by an empty transaction of the same sender and nonce and the two resulting state stores are compared key by key (only the sender's and the admins' balances may differ, by exactly the fee difference); later receipts must be equal and the failed transaction must not appear in the delivery set; the twin is then brought to the real block through the executor's rollback path", 800, 80000),
 	"C08": chainProp("one case = a seeded block stream of (a) structure- and byte-level mutations of well-formed transactions (nil/junk/truncated/oversized payloads, unknown transaction and VM types, nil or unknown destination, unknown methods, malformed service and IBTP identifiers, extreme indices and timeouts, junk IBTP types, mismatched or empty groups, junk proofs, junk or truncated WASM modules) and (b) direct calls of every reflection-enumerated contract method with typed arbitrary argument vectors (incl. wrong counts and types) by all roles, at any block position, mixed with valid traffic, some chains bound to WASM/FabricSim rules; oracle: one receipt per transaction in order, next height, an executed event within the watchdog (wedge), and the worker process survives (an un-recovered panic in a node goroutine kills it; the controller attributes the death to the announced run, resumes behind it and minimises the plan with one process per candidate)", 800, 80000),
